@@ -1,3 +1,276 @@
--- stub: the driver of C02 is not built yet
+/-
+  Line-protocol driver of C02 (core-only).
+
+    run <kind>/<topic hex>/<mws> <script>+
+        kind   pub | dis | disdeco | nil     (AddHandler+publisher | AddNoPublisherHandler | the same with a
+                                              recording publisher decorator | AddHandler with a nil publisher)
+        mws    -  or a word over {p,o,P,O}: middlewares in registration order (first = outermost),
+               p = passthrough, o = appends one output (id 100+position) to whatever the inner handler returned;
+               lower case = router level (Router.AddMiddleware), upper case = handler level (Handler.AddMiddleware)
+        script <self>.<result>.<pub>   self: - a n    result: r<k> e<k> c<k> pv pe pn    pub: ok err panic
+               (e = plain error, c = context.Canceled, both with k outputs next to the error)
+
+  Observation: one word per message, events joined by `;`
+        H                         handler entered
+        a | n                     handler settled the message itself
+        P<topic hex>/<ids>/<st>   Publish entered with these outputs (ids joined by `.`), settlement state of the
+                                  consumed message sampled inside Publish: - a n
+        R<ret>/<st>               Publish about to end: ok err nopub panic, state sampled again
+        F<st>                     settlement state after handleMessage finished (B = both channels closed)
+        D                         Router.Close() returned nil afterwards (runningHandlersWg.Done() was called)
+  A request during which the process running the code under test died is observed as the single word `crashed`.
+
+  `M` prints the model's observation (`Wm.Handle.handle` + `Wm.Ack` over the settle effects),
+  `P` evaluates the statement of C02 on the implementation's observation (does not call `handle`).
+-/
 import WmModel.Basic
-def main : IO Unit := Wm.driverMain (fun _ => "bad-op")
+import WmModel.Handle
+open Wm Wm.Handle
+
+/-! ## parsing -/
+
+structure DCfg where
+  cfg     : Cfg
+  visible : Bool          -- are Publish calls observable by the harness
+  mws     : List (Mw Nat)
+  kindTok : String
+
+def parseMws (s : String) : Option (List (Mw Nat)) :=
+  if s = "-" then some [] else
+  (s.toList.zipIdx).mapM (fun (c, i) =>
+    match c with
+    | 'p' | 'P' => some Mw.pass                    -- upper case: the same middleware registered on the handler
+    | 'o' | 'O' => some (Mw.addOut (100 + i))
+    | _ => none)
+
+def parseCfg (s : String) : Option DCfg :=
+  match s.splitOn "/" with
+  | [k, t, m] => do
+    let tb ← hexDec t
+    let topic := String.ofList (tb.map (fun b => Char.ofNat b.toNat))   -- topics used by the harness are ASCII
+    let mws ← parseMws m
+    match k with
+    | "pub"     => some ⟨⟨.withPub, topic⟩, true, mws, k⟩
+    | "dis"     => if tb.isEmpty then some ⟨⟨.disabled, ""⟩, false, mws, k⟩ else none
+    | "disdeco" => if tb.isEmpty then some ⟨⟨.disabled, ""⟩, true, mws, k⟩ else none
+    | "nil"     => some ⟨⟨.nilPub, topic⟩, true, mws, k⟩
+    | _ => none
+  | _ => none
+
+structure Script where
+  o : Outcome Nat
+  p : PubOutcome
+
+def parseSelf : String → Option (Option Settle)
+  | "-" => some none | "a" => some (some .ack) | "n" => some (some .nack) | _ => none
+
+def parseResult (s : String) : Option (Result Nat) :=
+  match s.toList with
+  | ['p', 'v'] => some (.panics .value)
+  | ['p', 'e'] => some (.panics .error)
+  | ['p', 'n'] => some (.panics .nil)
+  | c :: ds =>
+    if ds.isEmpty || !ds.all Char.isDigit then none else
+    match (String.ofList ds).toNat? with
+    | some k =>
+      if k > 1000 then none else
+      match c with
+      | 'r' => some (.returns (List.range k) false)
+      | 'e' => some (.returns (List.range k) true)
+      | 'c' => some (.returns (List.range k) true)
+      | _ => none
+    | none => none
+  | _ => none
+
+def parsePub : String → Option PubOutcome
+  | "ok" => some .accept | "err" => some .error | "panic" => some .panic | _ => none
+
+def parseScript (s : String) : Option Script :=
+  match s.splitOn "." with
+  | [a, b, c] => do
+    let se ← parseSelf a
+    let r ← parseResult b
+    let p ← parsePub c
+    pure ⟨⟨se, r⟩, p⟩
+  | _ => none
+
+/-! ## model observation -/
+
+def sentTok : Ack.Sent → String
+  | .none => "-" | .ack => "a" | .nack => "n"
+
+def idsTok (ids : List Nat) : String :=
+  if ids.isEmpty then "-" else ".".intercalate (ids.map toString)
+
+def topicTok (t : String) : String := hexEnc t.toUTF8.toList
+
+def retTok (k : Kind) : PubOutcome → String
+  | .accept => "ok"
+  | .error => if k = .disabled then "nopub" else "err"
+  | .panic => "panic"
+
+/-- walk the effect list keeping the settlement state (Wm.Ack) of a message built by `NewMessage` -/
+def observeAux (d : DCfg) : Ack.St → List (Effect Nat) → List String
+  | s, [] =>
+    let both := s.ackCh = .closed ∧ s.nackCh = .closed
+    [if both then "FB" else "F" ++ sentTok s.sent]
+  | s, [.done] =>
+    let both := s.ackCh = .closed ∧ s.nackCh = .closed
+    [if both then "FB" else "F" ++ sentTok s.sent, "D"]
+  | s, e :: rest =>
+    let s' := match settleOp e with
+      | some op => (Ack.step s op).1
+      | none => s
+    let here : List String := match e with
+      | .handlerCalled => ["H"]
+      | .selfAck => ["a"]
+      | .selfNack => ["n"]
+      | .publishCall t outs => if d.visible then ["P" ++ topicTok t ++ "/" ++ idsTok outs ++ "/" ++ sentTok s.sent] else []
+      | .publishRet r => if d.visible then ["R" ++ retTok d.cfg.kind r ++ "/" ++ sentTok s.sent] else []
+      | _ => []
+    here ++ observeAux d s' rest
+
+def modelObs (d : DCfg) (sc : Script) : String :=
+  ";".intercalate (observeAux d (Ack.initSt .new) (handle d.cfg (chain d.mws sc.o) sc.p))
+
+/-! ## property monitor: the statement of C02 evaluated on an observation -/
+
+structure PubRec where
+  ids   : List Nat
+  stIn  : String
+  ret   : String := "?"
+  stOut : String := "?"
+
+structure Obs where
+  hCount  : Nat := 0
+  hFirst  : Bool := false
+  selfTok : List String := []
+  pubs    : List PubRec := []      -- most recent first
+  finals  : List String := []
+  doneTok : Bool := false
+
+def parseIds (s : String) : Option (List Nat) :=
+  if s = "-" then some [] else (s.splitOn ".").mapM String.toNat?
+
+def stOk (s : String) : Bool := s = "-" || s = "a" || s = "n"
+
+def parseObs (w : String) : Option Obs := do
+  let toks := w.splitOn ";"
+  let mut o : Obs := {}
+  let mut first := true
+  for t in toks do
+    if o.doneTok then none               -- D is last
+    if t = "D" then
+      if o.finals.length != 1 then none  -- … and follows F
+      o := { o with doneTok := true }
+    else if o.finals.length > 0 then none
+    else if t = "H" then
+      o := { o with hCount := o.hCount + 1, hFirst := o.hFirst || first }
+    else if t = "a" || t = "n" then
+      o := { o with selfTok := o.selfTok ++ [t] }
+    else if t.startsWith "P" then
+      match (t.drop 1).toString.splitOn "/" with
+      | [_, ids, st] =>
+        let ids ← parseIds ids
+        if !stOk st then none
+        o := { o with pubs := ⟨ids, st, "?", "?"⟩ :: o.pubs }
+      | _ => none
+    else if t.startsWith "R" then
+      match (t.drop 1).toString.splitOn "/" with
+      | [r, st] =>
+        if !stOk st then none
+        if !(r = "ok" || r = "err" || r = "nopub" || r = "panic") then none
+        -- the return belongs to the most recent call that has not returned yet (calls attributed to one message
+        -- can only overlap when the code under test mixes up the outputs of different messages)
+        let opened := o.pubs.takeWhile (fun p => p.ret != "?")
+        match o.pubs.dropWhile (fun p => p.ret != "?") with
+        | p :: ps => o := { o with pubs := opened ++ { p with ret := r, stOut := st } :: ps }
+        | [] => none
+      | _ => none
+    else if t.startsWith "F" then
+      let st := (t.drop 1).toString
+      if !(stOk st || st = "B") then none
+      o := { o with finals := o.finals ++ [st] }
+    else none
+    first := false
+  if o.finals.length != 1 then none
+  pure o
+
+/-- outputs the chain returns, computed from the script directly (handler ids 0..k-1, then the `o`
+    middlewares from the innermost to the outermost) -/
+def chainOuts (mws : List (Mw Nat)) (k : Nat) : List Nat :=
+  List.range k ++ (mws.filterMap (fun m => match m with | .addOut x => some x | .pass => none)).reverse
+
+def monitor1 (d : DCfg) (sc : Script) (w : String) : String :=
+  match parseObs w with
+  | none => "bad-op"
+  | some o => Id.run do
+    let (chainEnds, outs) : (String × List Nat) := match sc.o.result with
+      | .panics _ => ("panic", [])
+      | .returns hs true => ("error", chainOuts d.mws hs.length)
+      | .returns hs false => ("ok", chainOuts d.mws hs.length)
+    let fin := o.finals.headD "-"
+    -- the handler chain is invoked (once, before anything else happens to the message)
+    if o.hCount != 1 || !o.hFirst then return "violated:handler_invoked_once"
+    -- settled exactly once
+    if fin = "-" then return "violated:not_settled"
+    if fin = "B" then return "violated:settled_twice"
+    let selfS : String := match sc.o.selfSettle with | none => "-" | some .ack => "a" | some .nack => "n"
+    -- a settlement the handler made itself is never overridden
+    if selfS != "-" && fin != selfS then return "violated:self_settlement_overridden"
+    -- the Ack is never sent before the publish call has returned successfully
+    for p in o.pubs do
+      if selfS != "a" && (p.stIn = "a" || p.stOut = "a") then return "violated:ack_before_publish_returned"
+      if selfS != "-" && (p.stIn != selfS || p.stOut != selfS) then return "violated:self_settlement_overridden"
+    -- messages returned together with an error are not published (nor anything after a panic)
+    if chainEnds != "ok" && o.pubs.length > 0 then return "violated:published_on_error"
+    if selfS = "-" then
+      -- Ack iff no error and every returned message accepted by the handler's publisher
+      let acceptedIds := (o.pubs.filter (fun p => p.ret = "ok")).flatMap (·.ids)
+      let accepted := outs.isEmpty || (d.cfg.kind = .withPub && outs.all (fun x => acceptedIds.contains x))
+      let wantAck := chainEnds = "ok" && accepted
+      if wantAck && fin != "a" then return "violated:nack_but_handled_and_published"
+      if !wantAck && fin = "a" then
+        return (if chainEnds = "error" then "violated:ack_after_error"
+                else if chainEnds = "panic" then "violated:ack_after_panic"
+                else "violated:ack_without_accepted_publish")
+    return "ok"
+
+def zipAll (f : Script → String → String) : List Script → List String → Option (List String)
+  | [], [] => some []
+  | s :: ss, w :: ws => (zipAll f ss ws).map (f s w :: ·)
+  | _, _ => none
+
+/-- a NoPublishHandlerFunc cannot return messages: requests that say otherwise are malformed -/
+def scriptsOk (d : DCfg) (scs : List Script) : Bool :=
+  d.cfg.kind != .disabled || scs.all (fun sc => match sc.o.result with
+    | .returns outs _ => outs.isEmpty
+    | .panics _ => true)
+
+def handleLine (line : String) : String :=
+  match line.splitOn " " with
+  | "M" :: "run" :: c :: scripts =>
+    match parseCfg c, scripts.mapM parseScript with
+    | some d, some scs =>
+      if scs.isEmpty || !scriptsOk d scs then "bad-op" else " ".intercalate (scs.map (modelObs d))
+    | _, _ => "bad-op"
+  | "P" :: "run" :: c :: rest =>
+    let scripts := rest.takeWhile (· != "##")
+    let obs := (rest.dropWhile (· != "##")).drop 1
+    match parseCfg c, scripts.mapM parseScript with
+    | some d, some scs =>
+      if scs.isEmpty || !scriptsOk d scs then "bad-op" else
+      if obs = ["crashed"] then "violated:crashed_not_settled" else
+      -- trailing X<n> (Publish calls the harness could not attribute to a consumed message) is not a statement of C02
+      let obs := obs.filter (fun w => !w.startsWith "X")
+      match zipAll (monitor1 d) scs obs with
+      | none => "violated:one_observation_per_message"
+      | some vs =>
+        if vs.any (· == "bad-op") then "bad-op"
+        else match vs.find? (· != "ok") with
+          | some v => v
+          | none => "ok"
+    | _, _ => "bad-op"
+  | _ => "bad-op"
+
+def main : IO Unit := driverMain handleLine
